@@ -343,7 +343,9 @@ fn first_diff(
         // `pcall` (a host function that swallows its callee's error) exists in the implementation
         // and in the reference semantics (engine `sem`) only, not in the VM model: see VmEngine
         // (the model's state is off from that line on: the rest of the case is not compared either)
-        let uses_pcall = engine.name() != "sem" && ops[..=i].iter().any(|o| o.contains("$7063616c6c"));
+        // (`typed3`, $747970656433, is a harness-only host function as well: its conversion messages
+        // are checked by the nat engine's oracle)
+        let uses_pcall = engine.name() != "sem" && ops[..=i].iter().any(|o| o.contains("$7063616c6c") || o.contains("$747970656433"));
         if is_model && (!engine.model_compared(&ops[i]) || y == "model-timeout" || uses_pcall) {
             continue;
         }
